@@ -1057,7 +1057,35 @@ def check_constant(chk, prog, LOCATION, SCALE, floor=11):
                     # a missing value took part in the estimator's arithmetic: it was not stripped first
                     problems.append(f"{size}: a NaN reaches the estimator body ({e})")
                     continue
-                raise AnalysisError(f"C19-D5: cannot evaluate {name} on constant data (n={size}): {e}")
+                if "comparison" not in str(e):
+                    raise AnalysisError(f"C19-D5: cannot evaluate {name} on constant data (n={size}): {e}")
+                # the body orders a polynomial in k against 0: generic k cannot decide that, so the estimator is re-interpreted with
+                # the comparison decided at two representative constants of either sign (k = 7, k = -7); a wrong answer there is a
+                # concrete counterexample (constant data at that value), and agreement at both is what is claimed for this estimator
+                from .abstools import atoms_at, eval_term
+                failed = False
+                for kv in (7, -7):
+                    W.reset()
+                    CTX.atoms = atoms_at({"k": kv})
+                    try:
+                        o2 = Interp(prog, const_model()).call(Closure(fi.node, {}, fi.mod, fi.qn), args, {})
+                    except Raised as e2:
+                        problems.append(f"n={size}, every value {kv}: raises {e2}")
+                        failed = True
+                        continue
+                    except Undecided as e2:
+                        raise AnalysisError(f"C19-D5: cannot evaluate {name} on constant data (n={size}, k={kv}): {e2}")
+                    if size in ("empty", "all NaN"):
+                        if not (o2 is None or o2 is NAN):
+                            problems.append(f"{size}: returns {o2!r}, expected NaN (no data)")
+                            failed = True
+                        continue
+                    want2 = kv if name in LOCATION else 0
+                    got2 = None if (o2 is None or o2 is NAN) else eval_term(T(o2), {"k": kv})
+                    if got2 is None or got2 != want2:
+                        problems.append(f"n={size}, every value {kv}: returns {got2!r}, expected {want2}")
+                        failed = True
+                continue
             finally:
                 CTX.atoms = old
             if size in ("empty", "all NaN"):
